@@ -468,10 +468,10 @@ pixman_transform_init_scale (struct pixman_transform *t,
     t->matrix[2][2] = F (1);
 }
 
-static pixman_fixed_t
+static pixman_fixed_48_16_t
 fixed_inverse (pixman_fixed_t x)
 {
-    return (pixman_fixed_t) ((((pixman_fixed_48_16_t) F (1)) * F (1)) / x);
+    return (((pixman_fixed_48_16_t) F (1)) * F (1)) / x;
 }
 
 PIXMAN_EXPORT pixman_bool_t
@@ -494,8 +494,16 @@ pixman_transform_scale (struct pixman_transform *forward,
     
     if (reverse)
     {
-	pixman_transform_init_scale (&t, fixed_inverse (sx),
-	                             fixed_inverse (sy));
+	pixman_fixed_48_16_t isx = fixed_inverse (sx);
+	pixman_fixed_48_16_t isy = fixed_inverse (sy);
+
+	/* 1/s is not representable for |s| <= 2/65536 */
+	if (isx > pixman_max_fixed_48_16 || isx < pixman_min_fixed_48_16 ||
+	    isy > pixman_max_fixed_48_16 || isy < pixman_min_fixed_48_16)
+	    return FALSE;
+
+	pixman_transform_init_scale (&t, (pixman_fixed_t) isx,
+	                             (pixman_fixed_t) isy);
 	if (!pixman_transform_multiply (reverse, reverse, &t))
 	    return FALSE;
     }
